@@ -50,7 +50,7 @@ EQ_DOM = [0, 1, "a", None, [], [0], [0, 1], [1, 0], [0, 1, 2], {"a": 0}, {"a": 0
 
 
 def bounds(tier):
-    return {"depth": _depth(tier), "int_domain": _dom(tier), "max_observations": 3, "approved_sets": "all 16 (quick: 8 for sub-snapshot states at depth >= 1)" if tier == "quick" else 16,
+    return {"depth": _depth(tier), "depth_sub_snapshots": 2, "int_domain": _dom(tier), "max_observations": 3, "approved_sets": "all 16 (quick: 8 for sub-snapshot states at depth >= 1)" if tier == "quick" else 16,
             "eq_domain": len(EQ_DOM), "seeds": {k: len(v) for k, v in SEEDS.items()}}
 
 
@@ -110,7 +110,7 @@ def actions(op, state, tier):
         acts += [{"xs": s} for s in _seqs(dom, 3)]
     elif op == "[k]":
         cur = dict(state[1]) if state != M.NONE else {}
-        keys = ["a", "b"] + (["c"] if tier != "quick" else [])
+        keys = ["a", "b"]  # a third key only occurs in seed states: 3 keys x 13 child scripts each is > 10^7 transitions
         per = [_child_opts(cur.get(k), tier) for k in keys]
         for combo in itertools.product(*per):
             acc = []
@@ -233,6 +233,8 @@ def explore(tier, seed, runner):
             frontier.append((op, s))
     depth = 0
     while frontier and depth < _depth(tier):
+        if tier != "quick" and depth >= 2:
+            frontier = [(op, s) for op, s in frontier if op != "[k]"]  # sub-snapshot states: depth 2 (see bounds)
         tasks = []
         for op, s in frontier:
             fs = FS_SMALL if (tier == "quick" and op == "[k]" and depth >= 1) else FS
